@@ -9,6 +9,8 @@ import Mahotas.Proofs.C06Fast
 import Mahotas.Proofs.C06Axis
 import Mahotas.Proofs.C06Gauss
 import Mahotas.Proofs.C06Const
+import Mahotas.Proofs.C06Transpose
+import Mahotas.Proofs.C06Separable
 open Mahotas Mahotas.C06
 
 /-- **C06-T1 (generic kernel = defining sum).** For every border mode (nearest, wrap, reflect, mirror,
@@ -423,4 +425,182 @@ example :
     laplacianWeightsG (Nat.cast : Nat → ℚ) (1 / 5) =
       #[1 / 6, 2 / 3, 1 / 6, 2 / 3, -10 / 3, 2 / 3, 1 / 6, 2 / 3, 1 / 6] ∧
     ((1 : ℚ) / 5 + 1 ≠ 0) := by
+  decide +kernel
+
+/-! ## Round 3: the transposition / reshape glue as index arithmetic; separability -/
+
+/-- **C06-T3c (`lineThrough` IS the row of `f.transpose(indices).reshape((-1, N))`, and the way back).**
+numpy semantics assumed, and nothing else: `a.transpose(perm)` permutes the axes logically — shape
+`[a.shape[perm[i]]]_i`, element at `q` = element of `a` at the `p` with `p[perm[i]] = q[i]`
+(`transposeImg`; `transposeImg_getD` proves `a.transpose(perm)[[p[perm[i]]]_i] = a[p]` for every
+permutation `perm` of the axes) — and `a.reshape(newshape)` of a possibly non-contiguous array is the
+C-order ravel of its logical content read with the new shape (`reshapeImg`). With
+`indices = [a for a in range(ndim) if a != axis] + [axis]` (`moveLast`) and
+`rindices = [indices.index(a) for a in range(ndim)]` (`invPerm`), for every rank, shape and `axis < ndim`:
+* `indices` is a permutation of the axes, the transposed shape is (the other lengths) `++ [N]`,
+  `N = shape[axis]`, and the 2-D view has shape `[Π other lengths, N]` (what `-1` resolves to);
+* for every inside position `p`, the row of the 2-D view whose number is the C-order rank of `p`
+  without its `axis` coordinate in the transposed shape without its last axis (`rowIndex`) is a valid
+  row and equals `lineThrough f axis p` — the object through which `fastAt` / `convolve1dG` (T3) read
+  the row; cell `(row of p, x)` of the view is `f[p[axis := x]]`;
+* the way back: for every 2-D buffer `tmp` of the shape of the view,
+  `tmp.reshape(tshape).transpose(rindices)` has the shape of `f`, and the cell `(row of p, x)` of `tmp`
+  lands at the logical position `p[axis := x]`. -/
+theorem C06_lineThrough_is_transpose_reshape {R : Type} [CommSemiring R] (f : Img R) (axis : Nat)
+    (hax : axis < f.shape.length) :
+    (moveLast f.shape.length axis).Perm (List.range f.shape.length) ∧
+    (transposeImg (moveLast f.shape.length axis) f).shape = otherShape f.shape axis ++ [f.shape.getD axis 1] ∧
+    (rowsView f axis).shape = [shapeSize (otherShape f.shape axis), f.shape.getD axis 1] ∧
+    (∀ p, inside f.shape p = true →
+      rowIndex f.shape axis p < shapeSize (otherShape f.shape axis) ∧
+      rowOf (rowsView f axis) (rowIndex f.shape axis p) = lineThrough f axis p ∧
+      ∀ x : Int, 0 ≤ x → x < ((f.shape.getD axis 1 : Nat) : Int) →
+        (rowsView f axis).getD [(rowIndex f.shape axis p : Int), x] 0 = f.getD (setAxis p axis x) 0) ∧
+    (∀ tmp : Img R, tmp.shape = [shapeSize (otherShape f.shape axis), f.shape.getD axis 1] →
+      (unrowsView f.shape axis tmp).shape = f.shape ∧
+      ∀ p, inside f.shape p = true → ∀ x : Int, 0 ≤ x → x < ((f.shape.getD axis 1 : Nat) : Int) →
+        (unrowsView f.shape axis tmp).getD (setAxis p axis x) 0 =
+          tmp.getD [(rowIndex f.shape axis p : Int), x] 0) :=
+  ⟨moveLast_perm _ _ hax, transposed_shape f.shape axis, rfl,
+    fun p hp => ⟨rowIndex_lt f.shape axis p hp, rowOf_rowsView f axis p hax hp,
+      fun x h0 h1 => rowsView_getD f axis p x hax hp h0 h1⟩,
+    fun tmp htmp => unrowsView_getD f.shape axis hax tmp htmp⟩
+
+/-- **C06-T3d (the fast path of `convolve1d` as written = the defining sum; T3 no longer rests on a reading
+of numpy beyond the two semantic facts of T3c).** `convolve1dViaTranspose` is the Python fast path
+literally: `f.transpose(indices)`, `.reshape((-1, N))`, the C kernel `_convolve.convolve1d` on that 2-D array
+(the write sequence `fastWrites` of T2 applied to a buffer `tmp`, each store through the output cast),
+`tmp.reshape(tshape).transpose(rindices)`. For every rank, shape, axis, kernel shorter than the axis (the
+guard of the fast path), mode and output cast, over any commutative semiring: the result has the shape of
+`f`, every cell of `tmp` is written (no uninitialised value survives), and its C-order content is
+`[cast(Σ_j w[j]·f[border(p + (j − Nf/2)·e_axis)])]_p` — the tabulated defining sum with the kernel
+embedded on `axis` —, which is exactly the list `convolve1dG` (the model the driver runs, which reads
+rows through `lineThrough`) returns on either path. -/
+theorem C06_convolve1d_via_transpose {R : Type} [CommSemiring R] (cast : R → R) (isZero : R → Bool)
+    (hz : ∀ x, isZero x = true → x = 0) (m : Mode) (f : Img R) (axis : Nat) (w : Array R)
+    (hax : axis < f.shape.length) (hw : w.size < f.shape.getD axis 1) :
+    (convolve1dViaTranspose cast m f axis w).shape = f.shape ∧
+    (convolve1dViaTranspose cast m f axis w).data.toList =
+      ((allPos f.shape).map fun p => cast (convSpec m f (embedShape f.shape.length axis w.size) w p)) ∧
+    (∀ contig, (convolve1dViaTranspose cast m f axis w).data.toList =
+      (convolve1dG cast isZero m f contig axis w).1) := by
+  obtain ⟨h1, h2⟩ := viaTranspose_eq_spec cast m f axis w hax hw
+  refine ⟨h1, h2, fun contig => ?_⟩
+  rw [h2, convolve1dG_eq_spec cast isZero hz m f contig axis w hax]
+
+/-- non-vacuity of T3c / T3d: the 2×3×2 image of the T3 example, middle axis (a genuine transposition:
+    `indices = rindices = [0, 2, 1]`, transposed shape `[2, 2, 3]`, view `[4, 3]`); the pixel `(1, 2, 0)`
+    lies in row 2, which is `[7, 9, 11]` = `lineThrough`; the whole pipeline with the kernel `[2, −1]` in
+    mirror mode returns the values of the T3 example. -/
+example :
+    let f : Img Int := { shape := [2, 3, 2], data := #[1, 2, 3, 4, 5, 6, 7, 8, 9, 10, 11, 12] }
+    moveLast 3 1 = [0, 2, 1] ∧ invPerm (moveLast 3 1) = [0, 2, 1] ∧
+    (transposeImg (moveLast 3 1) f).shape = [2, 2, 3] ∧
+    (rowsView f 1).shape = [4, 3] ∧ (rowsView f 1).data = #[1, 3, 5, 2, 4, 6, 7, 9, 11, 8, 10, 12] ∧
+    rowIndex f.shape 1 [1, 2, 0] = 2 ∧
+    (rowOf (rowsView f 1) 2).data = #[7, 9, 11] ∧ (lineThrough f 1 [1, 2, 0]).data = #[7, 9, 11] ∧
+    (unrowsView f.shape 1 (rowsView f 1)).data = f.data ∧
+    (convolve1dViaTranspose id .mirror f 1 #[2, -1]).shape = [2, 3, 2] ∧
+    (convolve1dViaTranspose id .mirror f 1 #[2, -1]).data = #[5, 6, -1, 0, 1, 2, 11, 12, 5, 6, 7, 8] ∧
+    (convolve1dViaTranspose id .mirror f 1 #[2, -1]).data.toList =
+      (convolve1dG id (fun x => x == 0) .mirror f true 1 #[2, -1]).1 := by
+  decide +kernel
+
+/-- **C06-T3e (the branch `axis == ndim − 1` of the fast path: no `tmp`).** When the axis is the last one
+`indices` is the identity (`moveLast (k+1) k = range (k+1)`), and the Python code lets the C kernel write
+straight into `out.reshape((-1, N))`, a 2-D view of the C-contiguous output: `out` is then the 2-D buffer
+read with the shape of `f` (`convolve1dLastAxis` = `reshapeImg f.shape tmp`; numpy semantics assumed: a
+reshape of a C-contiguous array is a view with the same C-order content). For every rank ≥ 1, shape, kernel
+shorter than the last axis, mode and cast, this equals the tabulated cast defining sum with the kernel
+embedded on the last axis, i.e. `convolve1dG` on either path — the same list as the general branch of T3d
+(`unrowsView` on the last axis is that plain reshape, `unrowsView_last`). -/
+theorem C06_convolve1d_last_axis_branch {R : Type} [CommSemiring R] (cast : R → R) (isZero : R → Bool)
+    (hz : ∀ x, isZero x = true → x = 0) (m : Mode) (f : Img R) (w : Array R) (hn : 0 < f.shape.length)
+    (hw : w.size < f.shape.getD (f.shape.length - 1) 1) :
+    moveLast f.shape.length (f.shape.length - 1) = List.range f.shape.length ∧
+    (convolve1dLastAxis cast m f w).shape = f.shape ∧
+    (convolve1dLastAxis cast m f w).data.toList =
+      ((allPos f.shape).map fun p =>
+        cast (convSpec m f (embedShape f.shape.length (f.shape.length - 1) w.size) w p)) ∧
+    (convolve1dLastAxis cast m f w).data.toList =
+      (convolve1dViaTranspose cast m f (f.shape.length - 1) w).data.toList ∧
+    (∀ contig, (convolve1dLastAxis cast m f w).data.toList =
+      (convolve1dG cast isZero m f contig (f.shape.length - 1) w).1) := by
+  have hax : f.shape.length - 1 < f.shape.length := by omega
+  obtain ⟨h1, h2⟩ := lastAxis_eq_spec cast m f w hn hw
+  have hid : moveLast f.shape.length (f.shape.length - 1) = List.range f.shape.length := by
+    have := moveLast_last (f.shape.length - 1)
+    rwa [Nat.sub_add_cancel hn] at this
+  refine ⟨hid, h1, h2, ?_, fun contig => ?_⟩
+  · rw [h2, (viaTranspose_eq_spec cast m f _ w hax hw).2]
+  · rw [h2, convolve1dG_eq_spec cast isZero hz m f contig _ w hax]
+
+/-- non-vacuity of T3e: the same 2×3×2 image along its last axis (view `[6, 2]`, rows = memory rows),
+    kernel `[3]` of length 1 < 2, nearest mode. -/
+example :
+    let f : Img Int := { shape := [2, 3, 2], data := #[1, 2, 3, 4, 5, 6, 7, 8, 9, 10, 11, 12] }
+    moveLast 3 2 = [0, 1, 2] ∧ (rowsView f 2).shape = [6, 2] ∧ (rowsView f 2).data = f.data ∧
+    (convolve1dLastAxis id .nearest f #[3]).data = #[3, 6, 9, 12, 15, 18, 21, 24, 27, 30, 33, 36] ∧
+    (convolve1dLastAxis id .nearest f #[3]).data.toList =
+      (convolve1dG id (fun x => x == 0) .nearest f true 2 #[3]).1 := by
+  decide +kernel
+
+/-- **C06-T4e (separability: `gaussian_filter` = ONE n-D convolution with the outer-product kernel).**
+With exact arithmetic and no rounding between the passes (commutative semiring, identity output cast —
+the float64 / exactly-representable case), for every rank, every shape (axes shorter than the kernels
+included), arbitrary per-axis weights `ws axis` (hence every σ and every derivative order per axis) and
+**every one of the six border modes**: the model of `gaussian_filter` — one `convolve1d` pass per axis,
+axes `0, 1, …` in turn — keeps the shape and at every pixel `p` equals the n-D defining sum
+`Σ_j W[j]·f[border(p + j − c)]` with the outer-product kernel of shape `(len w_0, …, len w_{d−1})`,
+`W[j] = Π_a w_a[j_a]` (`outerKernel`), `c = shape(W)/2`; by T1 this is what `convolve(f, W, mode)`
+accumulates; for rank ≥ 1 the returned buffer is that tabulated sum. Reason: the border rule acts
+coordinate-wise, so the composed passes read `f` at `(border(p_0 + j_0 − c_0), …)`, and a sample outside
+on some axis in the `constant` (cval is 0: any other value is refused by `_check_mode`) / `ignore` modes
+contributes nothing in either form (nothing is renormalised) — no mode fails. What does fail is
+separability *with rounding between the passes* (integer or float32 output dtype, or float64 round-off):
+see the example below. -/
+theorem C06_gaussian_separable {R : Type} [CommSemiring R] (isZero : R → Bool)
+    (hz : ∀ x, isZero x = true → x = 0) (m : Mode) (f : Img R) (ws : Nat → Array R) :
+    (outerShape f.shape.length ws = (List.range f.shape.length).map fun a => (ws a).size) ∧
+    (∀ i < shapeSize (outerShape f.shape.length ws), (outerKernel f.shape.length ws).getD i 0 =
+      ((List.range f.shape.length).map fun a =>
+        (ws a).getD ((unravel (outerShape f.shape.length ws) i).getD a 0) 0).prod) ∧
+    (gaussianFilterG id isZero m f ws).shape = f.shape ∧
+    (∀ p, inside f.shape p = true →
+      (gaussianFilterG id isZero m f ws).getD p 0 =
+        convSpec m f (outerShape f.shape.length ws) (outerKernel f.shape.length ws) p ∧
+      (gaussianFilterG id isZero m f ws).getD p 0 =
+        convAcc m f (support isZero (outerShape f.shape.length ws) (outerKernel f.shape.length ws)) p) ∧
+    (0 < f.shape.length → (gaussianFilterG id isZero m f ws).data.toList =
+      (allPos f.shape).map (convSpec m f (outerShape f.shape.length ws) (outerKernel f.shape.length ws))) := by
+  obtain ⟨h1, h2⟩ := gaussianFilterG_separable isZero hz m f ws
+  refine ⟨rfl, fun i hi => outerKernel_getD _ ws i hi, h1, fun p hp => ⟨h2 p hp, ?_⟩,
+    gaussianFilterG_separable_list isZero hz m f ws⟩
+  rw [h2 p hp, C06_convolve_eq_spec isZero hz m f (inside_dims_pos _ _ hp)]
+
+/-- non-vacuity of T4e: a 2×3 image, kernels `[1, 2, −3, 5]` (longer than axis 0) and `[2, −1, 7]`, the
+    4×3 outer-product kernel; the two passes equal the single 2-D defining sum in mirror mode and in
+    ignore mode (samples dropped on either axis). -/
+example :
+    let f : Img Int := { shape := [2, 3], data := #[1, 2, 3, 4, 5, 6] }
+    let ws : Nat → Array Int := fun a => if a = 0 then #[1, 2, -3, 5] else #[2, -1, 7]
+    outerShape 2 ws = [4, 3] ∧ outerKernel 2 ws = #[2, -1, 7, 4, -2, 14, -6, 3, -21, 10, -5, 35] ∧
+    (gaussianFilterG id (fun x => x == 0) .mirror f ws).data.toList = [253, 273, 243, 37, 57, 27] ∧
+    (allPos f.shape).map (convSpec .mirror f (outerShape 2 ws) (outerKernel 2 ws)) =
+      [253, 273, 243, 37, 57, 27] ∧
+    (gaussianFilterG id (fun x => x == 0) .ignore f ws).data.toList = [116, 162, 17, -67, -93, -10] ∧
+    (allPos f.shape).map (convSpec .ignore f (outerShape 2 ws) (outerKernel 2 ws)) =
+      [116, 162, 17, -67, -93, -10] := by
+  decide +kernel
+
+/-- where separability fails: a rounding output cast (here: round down to a multiple of 4, standing for
+    an integer / float32 output dtype) is applied after *each* pass, so the two passes differ from the
+    rounded single 2-D sum (same image and kernels as above, mirror mode). -/
+example :
+    let f : Img Int := { shape := [2, 3], data := #[1, 2, 3, 4, 5, 6] }
+    let ws : Nat → Array Int := fun a => if a = 0 then #[1, 2, -3, 5] else #[2, -1, 7]
+    let c : Int → Int := fun x => x / 4 * 4
+    (gaussianFilterG c (fun x => x == 0) .mirror f ws).data.toList = [228, 272, 216, 40, 44, 28] ∧
+    ((allPos f.shape).map fun p => c (convSpec .mirror f (outerShape 2 ws) (outerKernel 2 ws) p)) =
+      [252, 272, 240, 36, 56, 24] := by
   decide +kernel
